@@ -14,7 +14,7 @@ from vp.model import c18_maps as mm
 SQRT3 = math.sqrt(3.0)
 SPECIFIERS = ["IC", "OC", "RR", "SH"]
 PIN_COUNTS = [1, 7, 19, 37, 3, 12, 24]
-MEAT_MATERIALS = ["UZr", "UZr", "UraniumOxide", "UraniumOxide", "B4C", "B4C", "HT9", "Custom", "UZr+iso", "HT9+iso"]
+MEAT_MATERIALS = ["UZr", "UZr+iso", "UraniumOxide", "UraniumOxide", "B4C", "B4C", "HT9", "Custom", "UZr+iso", "HT9+iso", "UZr", "UZr+iso"]
 # material modification names per material family (the documented table in doc/user/inputs.rst)
 MODS = {"UZr": ["U235_wt_frac", "ZR_wt_frac"], "UraniumOxide": ["U235_wt_frac", "TD_frac"], "B4C": ["B10_wt_frac", "TD_frac"]}
 MEAT_NAMES = {
@@ -64,8 +64,14 @@ def _isotopic(draw, idx):
     n = draw(st.integers(1, 4))
     start = draw(st.integers(0, len(ISO_NUCLIDES) - 1))
     step = draw(st.sampled_from([1, 3, 4]))
+    # a U-Zr vector (only U235, U238, ZR): the kind of entry that several UZr components share and that the UZr material
+    # modifications (U235_wt_frac, ZR_wt_frac) can be combined with
+    uzr = draw(st.sampled_from([True, False, True])) if idx == 0 else draw(st.sampled_from([False, True, False]))
     nucs = []
-    for k in range(n):
+    if uzr:
+        rot = draw(st.integers(0, 2))
+        nucs = (["U235", "U238", "ZR"] * 2)[rot:rot + 3]
+    for k in range(0 if uzr else n):
         nuc = ISO_NUCLIDES[(start + k * step) % len(ISO_NUCLIDES)]
         if nuc not in nucs:
             nucs.append(nuc)
@@ -81,6 +87,7 @@ def _isotopic(draw, idx):
         "format": fmt.split("+")[0],
         "density": r4(draw(st.floats(0.8, 19.0))) if fmt.endswith("+density") else None,
         "items": [[nuc, v] for nuc, v in zip(nucs, vals)],
+        "uzr": uzr,
     }
 
 
@@ -98,9 +105,14 @@ def _block(draw, idx, hexgeom, allow_oxide, isotopics, allow_grid):
     if template == "pin":
         choices = [m for m in MEAT_MATERIALS if (allow_oxide or m != "UraniumOxide") and (isotopics or ("iso" not in m and m != "Custom"))]
         meat = draw(st.sampled_from(choices))
+        if meat == "UZr" and any(i.get("uzr") for i in isotopics) and draw(st.booleans()):
+            meat = "UZr+iso"
         iso = None
         if meat == "Custom" or meat.endswith("+iso"):
             iso = draw(st.integers(0, len(isotopics) - 1))
+            shared = [k for k, i in enumerate(isotopics) if i.get("uzr")]
+            if meat == "UZr+iso" and shared:
+                iso = shared[0]  # every UZr user names the same entry
         b["meat"] = meat.split("+")[0]
         b["iso"] = iso
         fam = b["meat"]
@@ -113,7 +125,7 @@ def _block(draw, idx, hexgeom, allow_oxide, isotopics, allow_grid):
         b["gap"] = draw(st.sampled_from(["bond", "bond", "void", "liner", None]))
         b["wire"] = draw(st.booleans())
         b["fr"] = [r4(draw(st.floats(0.85, 0.92))), r4(draw(st.floats(0.8, 0.95))), r4(draw(st.floats(0.45, 0.95)))]
-        b["twoTypes"] = bool(draw(st.integers(0, 3)) == 0 and fam in MODS and iso is None)
+        b["twoTypes"] = bool(draw(st.integers(0, 3)) == 0 and fam in MODS and (iso is None or (fam == "UZr" and isotopics[iso].get("uzr"))))
         b["grid"] = bool(allow_grid and hexgeom and draw(st.integers(0, 2)) == 0)
         b["gridRoute"] = draw(st.sampled_from(["map", "contents"]))
         b["gridFill"] = draw(st.lists(st.integers(0, 5), min_size=1, max_size=12))
@@ -149,7 +161,7 @@ def bp_spec(draw, max_rings=3, tier="quick"):
     spec["origin"] = [draw(st.sampled_from([0.0, 0.0, 10.5, -3.25])), draw(st.sampled_from([0.0, 10.1])), draw(st.sampled_from([0.0, 1.1]))]
     spec["nucflags"] = draw(st.sampled_from(["default", "explicit", "explicit-O16"]))
     allow_oxide = spec["nucflags"] != "default"
-    n_iso = draw(st.integers(0, 2))
+    n_iso = draw(st.sampled_from([1, 2, 0, 1]))
     spec["isotopics"] = [draw(_isotopic(k)) for k in range(n_iso)]
     n_blocks = draw(st.integers(1, 4))
     spec["blocks"] = [draw(_block(k, hexgeom, allow_oxide, spec["isotopics"], True)) for k in range(n_blocks)]
@@ -180,6 +192,7 @@ def bp_spec(draw, max_rings=3, tier="quick"):
         }
         designs.append(des)
     spec["designs"] = designs
+    plan_shared_isotopics(spec)
     # core layout
     if hexgeom:
         kind = "hexThird" if symmetry.startswith("third") else ("hexFullFlat" if geom == "hex" else "hexFullTips")
@@ -194,6 +207,41 @@ def bp_spec(draw, max_rings=3, tier="quick"):
                     "strip": draw(st.booleans()), "pad": draw(st.booleans())}
     spec["sfp"] = draw(st.booleans())
     return spec
+
+
+def plan_shared_isotopics(spec):
+    """When one custom-isotopics entry is used by several (design, position) users that accept modifications, the first
+    user in construction order (designs in document order, blocks bottom to top) is given a by-block U235_wt_frac and the
+    last one no modification at all: users of one entry differ in their modifications and a modified one comes first."""
+    users = {}
+    for di, d in enumerate(spec["designs"]):
+        d["force"] = [None] * len(d["blocks"])
+        for pos, bi in enumerate(d["blocks"]):
+            b = spec["blocks"][bi]
+            if b["template"] == "pin" and b["iso"] is not None and block_mod_names(spec, b):
+                users.setdefault(b["iso"], []).append((di, pos))
+    for occ in users.values():
+        if len(occ) >= 2:
+            spec["designs"][occ[0][0]]["force"][occ[0][1]] = "mod"
+            spec["designs"][occ[-1][0]]["force"][occ[-1][1]] = "none"
+
+
+def permuted(spec):
+    """The same document with the assembly designs listed in reverse order and every stack of blocks upside down
+    (design names, specifiers and the per-position data travel with their blocks)."""
+    import copy
+
+    s = copy.deepcopy(spec)
+    s["designs"].reverse()
+    for d in s["designs"]:
+        nb = len(d["blocks"])
+        if d["share"] and nb == len(s["sharedHeights"]):
+            d["heights"] = list(s["sharedHeights"])
+        d["share"] = False
+        for key in ("blocks", "heights", "xs", "mesh", "modMask", "force"):
+            d[key] = list(reversed(d[key]))
+        d["modVals"] = [list(reversed(v)) for v in d["modVals"]]
+    return s
 
 
 # ---------------------------------------------------------------------------------------------------------------
@@ -426,8 +474,12 @@ def render_block(spec, b, grids):
 
 def block_mod_names(spec, b):
     """Modification names a component of this block accepts (by the documented table)."""
-    if b["template"] != "pin" or b["iso"] is not None:
+    if b["template"] != "pin":
         return []
+    if b["iso"] is not None:
+        # custom isotopics are applied first, modifications have the final word (documented in _constructMaterial); combined
+        # only for UZr on a pure U-Zr vector, where the outcome is fixed by the documented meaning of the two fractions
+        return MODS["UZr"] if (b["meat"] == "UZr" and spec["isotopics"][b["iso"]].get("uzr")) else []
     return MODS.get(b["meat"], [])
 
 
@@ -528,10 +580,14 @@ def render(spec):
         for pos, bi in enumerate(d["blocks"]):
             b = spec["blocks"][bi]
             names = block_mod_names(spec, b)
+            force = (d.get("force") or [None] * nb)[pos]
+            if force == "none":
+                continue
             for mi, mod in enumerate(names):
-                if not (d["modKinds"] >> mi) & 1:
+                forced = force == "mod" and mi == 0
+                if not (d["modKinds"] >> mi) & 1 and not forced:
                     continue
-                if (d["modMask"][pos] >> mi) & 1:
+                if (d["modMask"][pos] >> mi) & 1 or forced:
                     by_block.setdefault(mod, [None] * nb)[pos] = d["modVals"][mi][pos]
                 if two_types(b) and (d["modMask"][pos] >> (mi + 2)) & 1:
                     cname = meat_names(b)[mi % 2]
